@@ -3,6 +3,7 @@ C19 - emitted chain events mirror how the committed chain changed.
 -/
 import Neutrino.Lemmas.BlockMgr
 import Neutrino.Gen.BlockMgr
+import Neutrino.Model.NtfnChan
 namespace Neutrino.BM
 
 /-- **Connected events**: a successful filter-header write moves the store's tip and then the
@@ -653,12 +654,165 @@ theorem C19_midbatch_gap_counterexample :
       ((cfWrite s 3 2 true).2.ntf.drop 1) = [0, 1, 3] ∧ committedS (cfWrite s 3 2 true).1 = [0, 1, 2, 3] := by
   decide
 
+/-! ### the strict replay rule on the events of one rollback / one write -/
+
+theorem replayStrict_append (v : List Nat) (a b : List Ntfn) :
+    replayStrict v (a ++ b) = (replayStrict v a).bind (fun v' => replayStrict v' b) := by
+  induction a generalizing v with
+  | nil => simp [replayStrict]
+  | cons e es ih =>
+    simp only [List.cons_append, replayStrict]
+    cases h : replayStrict1 v e with
+    | none => simp
+    | some v' => simp [ih]
+
+/-- **Strict replay of a rollback**: handed over one by one (rendezvous), the disconnected events
+of `rollBackToHeight` apply strictly to the committed chain - each either names the held tip or is
+for a block above it - and leave exactly the chain committed afterwards. -/
+theorem rollBack_trace_strict (k fuel : Nat) (log : List Nat) (fst : Nat) (ft : Node) (hF : fst < log.length) :
+    replayStrict (committedOf log fst) (rollBack k fuel log fst ft []).2.2.2
+      = some (committedOf (rollBack k fuel log fst ft []).1 (rollBack k fuel log fst ft []).2.1) ∧
+    (rollBack k fuel log fst ft []).2.1 < (rollBack k fuel log fst ft []).1.length := by
+  induction fuel generalizing log fst ft with
+  | zero => simp only [rollBack, replayStrict]; exact ⟨trivial, hF⟩
+  | succ n ih =>
+    by_cases hgt : tipHeight log > k
+    · rw [C19_disconnected_step k n log fst ft [] hgt, rollBack_acc]
+      simp only [List.nil_append]
+      have hth : tipHeight log = log.length - 1 := rfl
+      have hlen2 : 2 ≤ log.length := by omega
+      by_cases hle : tipHeight log ≤ fst
+      · have hfe : fst = log.length - 1 := by omega
+        simp only [hle, ↓reduceIte]
+        have hv : committedOf log fst = log := by simp only [committedOf]; exact List.take_of_length_le (by omega)
+        have hne : log ≠ [] := by intro e; simp [e] at hlen2
+        have hlast : log.getLast? = some (tipId log) := by
+          simp only [tipId]; rw [List.getLast?_eq_some_getLast hne]; rfl
+        have h1 : replayStrict1 log (.disc (tipId log) (tipHeight log) (tipId log.dropLast)) = some log.dropLast := by
+          simp only [replayStrict1, hlast, hth]
+          have e1 : ¬ (log.length < log.length - 1 + 1) := by omega
+          have e2 : log.length = log.length - 1 + 1 := by omega
+          simp [e1, ← e2]
+        obtain ⟨i1, i2⟩ := ih log.dropLast (tipHeight log - 1) ⟨tipId log.dropLast, tipHeight log - 1⟩ (by simp; omega)
+        refine ⟨?_, i2⟩
+        rw [hv, replayStrict_append]
+        simp only [replayStrict, h1, Option.bind_some]
+        have hc : committedOf log.dropLast (tipHeight log - 1) = log.dropLast := by
+          simp only [committedOf]; exact List.take_of_length_le (by simp; omega)
+        rw [hc] at i1; exact i1
+      · simp only [hle, ↓reduceIte]
+        have hlt : fst + 1 < log.length := by omega
+        have h1 : replayStrict1 (committedOf log fst) (.disc (tipId log) (tipHeight log) (tipId log.dropLast))
+            = some (committedOf log fst) := by
+          have hvl : (committedOf log fst).length = fst + 1 := by simp only [committedOf, List.length_take]; omega
+          generalize committedOf log fst = v at hvl
+          simp only [replayStrict1]
+          have : v.length < tipHeight log + 1 := by omega
+          simp [this]
+        have hc : committedOf log.dropLast fst = committedOf log fst := by
+          simp only [committedOf, List.dropLast_eq_take, List.take_take]; congr 1; omega
+        obtain ⟨i1, i2⟩ := ih log.dropLast fst ft (by simp; omega)
+        refine ⟨?_, i2⟩
+        rw [replayStrict_append]
+        simp only [replayStrict, h1, Option.bind_some]
+        rw [← hc]; exact i1
+    · simp only [rollBack, hgt, ↓reduceIte, replayStrict]
+      exact ⟨trivial, hF⟩
+
+/-- strict replay of the connected events of an aligned write: each extends the held tip -/
+theorem conn_replay_strict (log : List Nat) (f : Nat) : ∀ (n start : Nat), start + n ≤ log.length →
+    replayStrict (log.take start) (connRange log f start n) = some (log.take (start + n)) := by
+  intro n
+  induction n with
+  | zero => intro start _; simp [connRange, replayStrict]
+  | succ k ih =>
+    intro start hle
+    have hlt : start < log.length := by omega
+    simp only [connRange, replayStrict]
+    have h1 : replayStrict1 (log.take start) (.conn (log.getD start 0) start f) = some (log.take (start + 1)) := by
+      simp only [replayStrict1, List.length_take]
+      have e1 : ¬ (start < min start log.length) := by omega
+      have e2 : start = min start log.length := by omega
+      simp only [e1, ↓reduceIte, ← e2]
+      rw [List.take_succ, List.getD_eq_getElem?_getD, List.getElem?_eq_getElem hlt]; simp
+    rw [h1]
+    simp only [Option.bind_some]
+    have := ih (start + 1) (by omega)
+    rw [this]; congr 2; omega
+
+/-! ### the notification channel is a rendezvous -/
+
+open NtfnChan in
+/-- invariant of the channel for every capacity and every schedule: the producer is ahead of the
+consumer by exactly the number of buffered events, which never exceeds the capacity -/
+theorem chan_invariant (cap total : Nat) (sched : List NtfnChan.Act) (c : NtfnChan.Conf)
+    (h : c.done = c.taken + c.queued ∧ c.queued ≤ cap) :
+    (NtfnChan.run cap total c sched).done = (NtfnChan.run cap total c sched).taken + (NtfnChan.run cap total c sched).queued ∧
+    (NtfnChan.run cap total c sched).queued ≤ cap := by
+  induction sched generalizing c with
+  | nil => exact h
+  | cons a as ih =>
+    apply ih
+    cases a with
+    | send =>
+      simp only [NtfnChan.step]
+      split
+      · simp only; omega
+      · exact h
+    | recv =>
+      simp only [NtfnChan.step]
+      split
+      · simp only; omega
+      · exact h
+    | sync =>
+      simp only [NtfnChan.step]
+      split
+      · rename_i hc; simp only; omega
+      · exact h
+
+/-- **Rendezvous (capacity 0), every schedule**: whenever the consumer holds `taken` events the
+handler has completed exactly the work that produced them - its stores and in-memory tips are the
+post-state of the emission just received, it is never ahead.  Hence a backlog request served by
+the consumer at any moment sees the state right after the last event it took, and backlog plus
+the events still to come replay (`C19_replay`, `C19_midbatch_subscriber`). -/
+theorem C19_rendezvous_no_lag (total : Nat) (sched : List NtfnChan.Act) :
+    (NtfnChan.run 0 total {} sched).done = (NtfnChan.run 0 total {} sched).taken ∧
+    (NtfnChan.run 0 total {} sched).queued = 0 := by
+  have := chan_invariant 0 total sched {} ⟨rfl, Nat.le_refl _⟩
+  omega
+
+/-- with any buffer the handler can be ahead: capacity 2, two sends, one receive - at that receive
+the handler's state is the post-state of the SECOND emission -/
+theorem C19_buffered_lag_counterexample :
+    NtfnChan.run 2 2 {} [.send, .send, .recv] = { done := 2, queued := 1, taken := 1 } := by decide
+
+/-- what that does to a subscriber (the seeded regression): stored `[0,1,2,3]` with all filter
+headers committed; the sync peer's heavier branch `4,5,6` off block 1 is adopted (events: 3 and 2
+disconnected) and the filter headers of 4 and 5 are committed (events: 4 and 5 connected).  A
+subscriber holding the chain up to height 1 whose backlog request is served while all four events
+are still buffered gets `4,5` as backlog and then "3 disconnected at height 3", where it holds 5:
+the stream cannot be applied.  Served after the events were handed over (rendezvous) it can. -/
+theorem C19_buffered_subscriber_counterexample :
+    let t : Tbl := { parent := fun i => match i with | 1 => some 0 | 2 => some 1 | 3 => some 2 | 4 => some 1 | 5 => some 4 | 6 => some 5 | _ => none
+                     work := fun _ => 2, valid := fun _ => true, fresh := fun _ => true }
+    let c : Cfg := { tbl := t, cps := [], win := 8 }
+    let s0 : State := { log := [0, 1, 2, 3], hl := [⟨3, 3⟩, ⟨2, 2⟩, ⟨1, 1⟩, ⟨0, 0⟩], sync := some 1,
+                        peers := [{ id := 1, cand := true }], htip := ⟨3, 3⟩, ftip := ⟨3, 3⟩, fst := 3 }
+    let a := step c s0 (.headers 1 [4, 5, 6])
+    let b := step c a.1 (.cfWrite 5 2 true)
+    let evs := a.2.ntf ++ b.2.ntf
+    let bl := (backlog b.1 1).bl.map (fun nd => Ntfn.conn nd.id nd.height 0)
+    b.1.log = [0, 1, 4, 5, 6] ∧ evs = [.disc 3 3 2, .disc 2 2 1, .conn 4 2 3, .conn 5 3 3] ∧
+    ((replayStrict [0, 1] bl).bind (fun v => replayStrict v evs)) = none ∧
+    ((replayStrict [0, 1] bl).bind (fun v => replayStrict v [])) = some [0, 1, 4, 5] := by
+  decide
+
 /-- the statement order regenerated from blockmanager.go on this run: `writeCFHeadersMsg` writes the
 store, then raises `filterHeaderTip(+Hash)` under its mutex, then notifies; `rollBackToHeight`
-lowers the in-memory tip with the store -/
+lowers the in-memory tip with the store; `blockNtfnChan` is made without a capacity (rendezvous) -/
 theorem C19_source_facts :
     Gen.BlockMgr.cfWriteBeforeNotify = true ∧ Gen.BlockMgr.cfTipBeforeNotify = true ∧
-    Gen.BlockMgr.rollbackLowersFilterTip = true := by decide
+    Gen.BlockMgr.rollbackLowersFilterTip = true ∧ Gen.BlockMgr.blockNtfnChanUnbuffered = true := by decide
 
 /-! Non-vacuity -/
 example : (cfWrite { log := [0, 1, 2, 3] } 2 2 true).2.ntf = [.conn 1 1 2, .conn 2 2 2] := by decide
